@@ -585,11 +585,34 @@ func (s *sim) await(id int) {
 }
 
 func (s *sim) snapshot(label string) {
-	m := s.lb.GetMetricsCollector().GetMetrics()
+	// the PUBLISHED numbers: what a scraper of the /metrics endpoint reads -- scraped more than once, as scrapers
+	// do (the last scrape is the one that is judged)
+	var m struct {
+		TotalRequests       uint64 `json:"total_requests"`
+		SuccessfulRequests  uint64 `json:"successful_requests"`
+		FailedRequests      uint64 `json:"failed_requests"`
+		RateLimitedRequests uint64 `json:"rate_limited_requests"`
+		BackendMetrics      map[string]struct {
+			Name               string `json:"name"`
+			TotalRequests      uint64 `json:"total_requests"`
+			SuccessfulRequests uint64 `json:"successful_requests"`
+			FailedRequests     uint64 `json:"failed_requests"`
+			ActiveConnections  int32  `json:"active_connections"`
+			IsHealthy          bool   `json:"is_healthy"`
+		} `json:"backend_metrics"`
+	}
+	for i := 0; i < 3; i++ {
+		mrec := httptest.NewRecorder()
+		s.lb.GetMetricsCollector().MetricsHandler()(mrec, httptest.NewRequest("GET", "/metrics", nil))
+		m.BackendMetrics = nil
+		if err := json.Unmarshal(mrec.Body.Bytes(), &m); err != nil {
+			emit(map[string]any{"ev": "drift", "why": "metrics endpoint: " + err.Error()})
+		}
+	}
 	bm := map[string]any{}
 	for n, b := range m.BackendMetrics {
 		bm[n] = map[string]any{"total": b.TotalRequests, "ok": b.SuccessfulRequests, "failed": b.FailedRequests,
-			"active": b.ActiveConnections, "healthy": b.IsHealthy}
+			"active": b.ActiveConnections, "healthy": b.IsHealthy, "name": b.Name}
 	}
 	// the same numbers through the real HTTP handlers
 	rec := httptest.NewRecorder()
